@@ -25,7 +25,7 @@ ELS = ["C", "H", "O", "N", "Zr", "Cu", "F", "S", "Cl", "Hf"]
 def cases(tier, seed):
     rng = np.random.default_rng([16, seed])
     n = 300 if tier == "quick" else 100000
-    out = [{"s": int(rng.integers(1 << 30)), "ids": ["inorder", "shuffled", "nonsequential", "strings", "case_variants"][j % 5],
+    out = [{"s": int(rng.integers(1 << 30)), "ids": ["inorder", "shuffled", "nonsequential", "strings", "case_variants", "one_character"][j % 6],
             "bonds": ["none", "random", "reversed", "no_bondarray"][(j // 4) % 4], "n": [1, 2, 3, 5, 16, 40][(j // 16) % 6] if j % 3 == 0 else None}
            for j in range(n)]
     out.append({"repo_files": True, "s": 0})
@@ -54,7 +54,13 @@ def build(rng, case):
         scale = float([1e6, 1e160, 1e250, 1e-160, 1e-300, 3e154][case["s"] // 6 % 6])
         case["_extreme_magnitude"] = True
     coords = [[fmt(v, rng) for v in rng.uniform(-1, 1, 3) * scale] for _ in range(n)]
-    if case["ids"] == "inorder":
+    if case["ids"] == "one_character":
+        # ids of a single character (1..9, a, b, ... as small hand-written files have them), next to two-letter element symbols
+        pool = list("123456789abcdefghijklmnopqrstuvwxyzABCDEFGHIJKLMNOPQRSTUVWXYZ")
+        n = min(n, len(pool))
+        els, coords = els[:n], coords[:n]
+        ids = [pool[int(i)] for i in (rng.permutation(len(pool))[:n] if rng.integers(2) else np.arange(n))]
+    elif case["ids"] == "inorder":
         ids = ["a%d" % (i + 1) for i in range(n)]
     elif case["ids"] == "shuffled":
         ids = ["a%d" % (i + 1) for i in rng.permutation(n)]
@@ -346,7 +352,7 @@ def requirements(stats, tier):
         need.append("document wrappers observed with bonds: %s" % sorted(stats.sets.get("document_wrapper_with_bonds", [])))
     if stats.get("documents_with_two_atom_arrays_and_bonds") < 10:
         need.append("documents whose atoms are spread over two atomArrays: %d" % stats.get("documents_with_two_atom_arrays_and_bonds"))
-    if stats.nseen("id_scheme") < 5:
+    if stats.nseen("id_scheme") < 6:
         need.append("not all id schemes observed")
     if stats.get("documents_without_bonds") < 20:
         need.append("fewer than 20 bond-free documents")
